@@ -132,6 +132,7 @@ func NewMachine(mainpkg *ssa.Package, sizes types.Sizes, linknames map[string]st
 		sizes:      sizes,
 		goroutines: 1,
 		extCache:   make(map[*ssa.Function]externalFn),
+		fnInfos:    make(map[*ssa.Function]*fnInfo),
 		linknames:  linknames,
 		lnCache:    make(map[*ssa.Function]*ssa.Function),
 	}
@@ -186,10 +187,12 @@ type Config struct {
 	MaxDecisions int
 	Known        map[string]bool
 	Params       map[string]int
+	NoFast       bool
 }
 
 func newPath(s *smt.Solver, item Item, cfg *Config, _ any) *path {
 	p := &path{ctx: smt.NewCtx(), solver: s, item: item, funcs: map[*ssa.Function]bool{},
+		doms:     map[*smt.Term]*domain{},
 		MaxSteps: 50_000_000, MaxDecisions: 4000}
 	if cfg != nil {
 		if cfg.MaxSteps > 0 {
@@ -200,6 +203,7 @@ func newPath(s *smt.Solver, item Item, cfg *Config, _ any) *path {
 		}
 		p.Known = cfg.Known
 		p.Params = cfg.Params
+		p.NoFast = cfg.NoFast
 	}
 	if item.Model != nil {
 		p.ctx.SetModel(item.Model)
